@@ -416,7 +416,7 @@ func init() {
 			rule:        "maximality: every match of every block of the C01-style histories (all parsers but OSAP) is compared with the following byte and, for BHP/BDHP, the preceding literal with the byte Offset before it when that byte is still buffered; run clause: additional 'run' histories over prefix + c^N + suffix streams (c in {0x00,0x01,'a',0xff,random}, N from 32 to several buffer fills, chunked delivery, Shrink between blocks, WindowSize 1 for hash parsers and 2 for GSAP) where every flags-0 block of >= 32 equal bytes may carry at most 1 literal (hash parsers) resp. MinMatchLen literals (GSAP/OSAP, MinMatchLen <= 8); non-trivial iff the history has a block with a match; distinct = distinct concrete case",
 			assumptions: []string{"the block end for maximality is parse position + min(BlockSize, unparsed)"},
 			mandatory:   []string{"matches_checked_for_maximality", "matches_ending_inside_block", "matches_ending_at_block_end", "backward_extension_checked", "run_blocks_checked", "run_blocks_inside_run", "run_blocks_of_zero_bytes", "run_blocks_with_tiny_window"}},
-		types: gen.ParserTypes, quickN: 12000, thorMul: 80, corpusN: 600, large: true,
+		types: gen.ParserTypes, quickN: 12000, thorMul: 40, corpusN: 600, large: true,
 		weights: DefaultWeights,
 		fixed: map[string]PCase{
 			// reproducer of the recorded finding KF-C19-GSAP
